@@ -22,14 +22,17 @@ for l in open(V + "/seeded/RESULTS.txt"):
 rows.sort(key=lambda r: (r[0].split("-")[0], int(r[0].split("-")[1])))
 out = ["### 11.6 Seeded changes and which check reports them\n",
        "%d changes were written by fresh sub-agents that saw only one property's text and a scratch git worktree of `/repo` (never `/verif`): round 1" % len(rows),
-       "(`-1..-3`, three per claimed property, made on the pinned commit) and round 2 (`-4..-6`, three more per claimed property, made on the tree with the `fix:`",
-       "commits, asked for *different* mechanisms: helper functions, boundary values, cooperating sites, interfering API calls).  Each compiles, passes the unedited",
+       "(`-1..-3`, three per claimed property, made on the pinned commit), round 2 (`-4..-6`, on the tree with the `fix:` commits, asked for *different*",
+       "mechanisms) and round 3 (`-7..-9`, asked to look further afield: helper modules, constants, constructors, interfering API calls, the other side of an",
+       "interface, boundary values, special configurations).  Each compiles, passes the unedited",
        "suite and comes with a demonstration test that passes on HEAD and fails with the change; I re-ran all three steps for every seed with",
        "`tools/verify_seed.sh` in a scratch worktree (result line in `seeded/<id>/verified.txt`, commands in `meta.json:what_i_ran`).  None of them is committed in",
        "`/repo`.  `seeded/RESULTS.txt` / `seeded/INDEX.md` are produced by running `tools/variant.sh` over all seeds with the final rules.\n",
-       "Result with the final rules: **%d of %d reported** by the check of their own property; the silent one(s): C14-2, which fix F11 made harmless (its own" % (nrep, len(rows)),
-       "demonstration passes on the fixed tree: `NEUTRALISED`).  %d round-1 seeds no longer apply to the fixed tree and are run from `patch_rebased.diff`" % nreb,
-       "(the same semantic change re-written against the fixed code).\n",
+       "Result with the final rules: **%d of %d reported** by the check of their own property.  Silent: C14-2, which fix F11 made harmless (its own" % (nrep, len(rows)),
+       "demonstration passes on the fixed tree: `NEUTRALISED`), and C20-9 (`update_prm_data_len` grows the block only when the field *starts* beyond its end, so a",
+       "field straddling the end panics): deciding it needs an inductive invariant over a `Vec` length across the push loop of the unchanged code, which the",
+       "interval/zone domain does not provide - recorded as not decided rather than covered by a shape rule.  %d round-1 seeds no longer apply to the fixed tree and" % nreb,
+       "are run from `patch_rebased.diff` (the same semantic change re-written against the fixed code).\n",
        "What the seeds taught — each of these was a miss (or a hit for a brittle reason) at first, and the *rule*, never the seed, was changed; every new clause was",
        "then run on the unchanged tree, on the six extra feature configurations and on hand-made behaviour-preserving edits (operand swaps, `is_stop()` ↔ `== Stop`,",
        "added `log::trace!`, type ascriptions) to make sure it stays silent there:\n",
@@ -46,6 +49,18 @@ out = ["### 11.6 Seeded changes and which check reports them\n",
        "  slot-expiry definition; C20-5 `binary_search` on the unsorted enumeration → order-independent membership; C11-5 SC after the pass ignored → the CheckTokenPass",
        "  receive callback leaves the state on every first-telegram path; C11-6 `transition_active_idle()` from ActiveIdle forgets the candidate predecessor → no",
        "  self-transition in typestate ActiveIdle.",
+       "* round 3 (20 of 51 missed at first - the seeds moved to helpers and API calls the rules had not looked at): C01-9 transposed digits in `Baudrate::to_rate` → rate",
+       "  table (variant `B<n>` returns n); C11-7 / C11-8 / C18-9 activity bookkeeping (`check_for_ongoing_transmision` without refresh, `mark_bus_activity` for `mark_rx`,",
+       "  `mark_rx` not resetting the count) → `b.sync-pause`/`g.rx` clauses of C01, imported by C11 and C18; C03-7 `reset_address` early return → whole-object",
+       "  replacement on every path; C03-8 / C18-8 source check dropped in the reply filter → C03 imports C04 `c.fdl-admission`; C03-9 truncating watchdog quotient →",
+       "  shape lint (decided only for the recognised shape); C04-8 swapped process images in `reset_address` → roles of the re-seated buffers; C05-8 field-wise offline",
+       "  reset forgetting `next_application` → support check of H-APPS; C05-9 recursion in the block iterator → no call-graph cycle without a checked depth bound (the",
+       "  one existing self-recursion, `do_claim_token`, is proved to have depth ≤ 1); C13-9 scanner never ending its cycle → C13 imports C18 `c.sweep`; C14-8 slot",
+       "  iteration rewinding instead of parking → result/stored-state table of `increment_cycle_state`; C14-9 builder accepting retry limit 0 → interval proof per",
+       "  `ParametersBuilder` setter (also the support of H-PARAM); C17-7 `&= !FLAG` truncating unnamed bits → no truncating operation in the header decoders; C17-8",
+       "  `fill` ignoring an empty block list → numeric post-condition (recorded, or no buffer, or too small); C18-7 GAP wrap after HSA → C18 imports C12.a; C19-7 literal",
+       "  `\\n` in the grammar → NEWLINE only; C19-8 two speed flags sharing a bit → distinct single bits; C19-9 signed numbers parsed through `u32` → no signed",
+       "  instantiation of `parse_number`.",
        "* an observation outside a property's scope: the RP2040 PHY (feature `phy-rp2040`) drops the whole receive buffer on a partial drop (acknowledged TODO in its",
        "  source); C16 quantifies over the generic helpers on the simulator/harness PHYs, so this is recorded under `not_decided` in the thorough evidence, not reported.\n",
        "| seed | mechanism | change | applied as | check | first reporting clause |", "|---|---|---|---|---|---|"]
